@@ -5,7 +5,7 @@ from .readerlib import both_modes, fixtures
 
 ID = 'C06'
 TARGETS = ['theories/Properties/C06.vo']
-THEOREMS = []
+THEOREMS = core.theorems_of(ID)
 LEVEL = ('total reader model in which every assert/unwrap/index/checked arithmetic of the Rust is an explicit Panic branch and the loops run on fuel; proved: for '
          'every byte string and option set the model returns a value or an error, never Panic or Fuel; the model predicts the outcome class of the real reader '
          'on structure-aware malformed inputs under every option combination and through the incremental API; aborts and hangs are observed in child '
